@@ -174,6 +174,7 @@ def run_prop(prop):
         if o['id'] == prop:
             anchors = set(o.get('anchors', {}).get('files', []))
     others = 0
+    cands = []
     for vid, x in sorted(exp.items()):
         if vid not in entries:
             continue
@@ -187,8 +188,19 @@ def run_prop(prop):
                 take = True
                 others += 1
         if take:
-            jobs.append((entries[vid], [prop]))
+            cands.append(vid)
             want[vid] = x
+    # keep the run bounded: the property's own variants first, then the others
+    def prio(vid):
+        name = vid.split(':', 1)[1]
+        own = name.startswith(prop + '-') or name.startswith(prop.replace('C', 'C', 1) + '-')
+        kind = vid.split(':', 1)[0]
+        return (0 if own else 1, {'regress': 0, 'seed': 1, 'mut': 2, 'benign': 3}.get(kind, 4), vid)
+    cands.sort(key=prio)
+    limit = int(os.environ.get('VERIF_CORPUS_MAX', '40'))
+    for vid in cands[:limit]:
+        jobs.append((entries[vid], [prop]))
+    want = {vid: want[vid] for vid in cands[:limit]}
     rs = par(jobs)
     out = {'variants': len(jobs), 'breaking_detected': 0, 'benign_silent': 0, 'stale': [], 'missed': [], 'false_alarms': [],
            'unverdicted': [], 'samples': []}
@@ -242,6 +254,7 @@ def main():
         print('tried', len(props), 'properties')
         return 0
     if cmd == 'selftest':
+        os.environ['VERIF_CORPUS_MAX'] = '100000'  # everything
         bad = 0
         for p in PROPS:
             o = run_prop(p)
